@@ -462,6 +462,12 @@ fn compile_error_lines(ctx: &Ctx, report: &mut Report) -> usize {
     n
 }
 
+/// programs for C02: every uncaught-error program without modules (the error report itself must not
+/// panic, whatever was raised and handled before)
+pub fn sources_for_c02() -> Vec<String> {
+    runtime_cases(false).into_iter().filter(|c| c.modules.is_empty() && c.family != "R_caught_class").map(|c| crate::ast::print_program(&c.prog, false)).collect()
+}
+
 pub fn cases_for_c01(thorough: bool) -> Vec<Case> {
     runtime_cases(false).into_iter().enumerate().filter(|(i, _)| thorough || i % 5 == 0).map(|(_, c)| c).collect()
 }
